@@ -622,6 +622,8 @@ def run(tier, only=None):
             raise
         rep.note("J9 not evaluated: %s" % e)
     j11(rep)
+    from . import variant_dispatch
+    variant_dispatch.report(rep, "J12", common.extract("java/genjava.c", all_trees=True), "genjava.c", "gj0Gen0", 35)
     from . import variadic
     variadic.report(rep, "J10", [u for u in common.compiler_units() if u.startswith("java/")], floor=70, what="in the Java generator")
     return rep
